@@ -10,6 +10,8 @@ import RTV.Gen.CharTables
   dv <culture> <p> <cps> <power>                                  -> neg coeff exp | err:<Kind>
   dres <culture> <p> <cps>      (digit literal -> resolution)     -> cps | err:<Kind>
   pres <culture> <p> <cps>      (percentage parser, number text)  -> cps | err:<Kind>
+  cjkpres <culture> <p> <cps>   (CJK per_parse 'Num', text before %) -> cps | err:<Kind>
+  floatrepr <neg> <coeff> <exp> (repr(float(d)), <= 15 digits)   -> cps
   giv <culture> <tok cps>...    (__get_int_value)                 -> n | err:<Kind>
   tres <culture> <p> <tok cps>...                                 -> cps | err:<Kind>
   rcn <culture> <cps>           (resolve_composite_number)        -> n
@@ -89,6 +91,17 @@ def hPres : Handler
     | .error e => showErr e
   | _ => "bad-op"
 
+def hCjkPres : Handler
+  | [cu, p, s] => withCulture cu fun c =>
+    match cjkPercentResolution (parseNat p) pyDigits c.sep c.longFormat [45, 0xFF0D, 0x8D1F, 0x8CA0] (parseCps s) with
+    | .ok r => showCps r
+    | .error e => showErr e
+  | _ => "bad-op"
+
+def hFloatRepr : Handler
+  | [n, c, e] => showCps (Dec.floatRepr (parseDec n c e))
+  | _ => "bad-op"
+
 def hGiv : Handler
   | cu :: toks => withCulture cu fun c => showRes (getIntValue pyDigits c.lang (toks.map parseCps))
   | _ => "bad-op"
@@ -133,6 +146,8 @@ def dispatch (op : String) (args : List String) : Option String :=
   | "n.dv" => some (hDv args)
   | "n.dres" => some (hDres args)
   | "n.pres" => some (hPres args)
+  | "n.cjkpres" => some (hCjkPres args)
+  | "n.floatrepr" => some (hFloatRepr args)
   | "n.giv" => some (hGiv args)
   | "n.tres" => some (hTres args)
   | "n.rcn" => some (hRcn args)
